@@ -2,6 +2,19 @@ const { getSourcePathAndLineFromSourceMaps } = require('../source-map')
 
 const kSymbolPrepareStackTrace = Symbol('_ddiastPrepareStackTrace')
 
+// "eval at <function> (<file>:<line>:<column>)": the position of the eval call, translated like any other
+function translateEvalOrigin (evalOrigin) {
+  if (typeof evalOrigin !== 'string') return evalOrigin
+  const evalData = /.*\(((?:.:[/\\]?)?[/\\].*):(\d*):(\d*)\)/.exec(evalOrigin)
+  if (!evalData) return evalOrigin
+  const [, filename, evalLine, evalColumn] = evalData
+  const { path, line, column } = getSourcePathAndLineFromSourceMaps(filename, evalLine, evalColumn)
+  if (path !== filename || line !== evalLine || column !== evalColumn) {
+    return evalOrigin.replace(`${filename}:${evalLine}:${evalColumn}`, () => `${path}:${line}:${column}`)
+  }
+  return evalOrigin
+}
+
 class WrappedCallSite {
   constructor (callSite) {
     const { path, line, column } = getSourcePathAndLineFromSourceMaps(
@@ -52,7 +65,7 @@ class WrappedCallSite {
   }
 
   getEvalOrigin () {
-    return this.callSite.getEvalOrigin()
+    return translateEvalOrigin(this.callSite.getEvalOrigin())
   }
 
   isToplevel () {
